@@ -956,6 +956,45 @@ fn special_arm(src: &Src, fname: &str, gname: &str) -> R<String> {
 }
 
 
+/// the calls of a function in evaluation order, as codes: calls not in `known` and not in the ignore list are 99,
+/// `return` is 98 — so added, removed, replaced or reordered steps change the list
+fn call_order(src: &Src, fname: &str, gname: &str, known: &[(&str, u64)], what: &str) -> R<String> {
+    let (_, block) = find_fn(src, fname)?;
+    struct V<'a> { known: &'a [(&'a str, u64)], out: Vec<u64> }
+    const IGNORE: &[&str] = &["Ok", "Err", "Some", "into", "clone", "to_string", "len", "as_ref", "as_raw_fd", "unwrap", "is_err", "ok_or",
+                             "CopyError", "InvalidDestination", "ReflinkFailed", "DestinationExists", "map_err", "to_path_buf", "new"];
+    impl<'a> V<'a> {
+        fn note(&mut self, name: &str) {
+            let last = name.rsplit("::").next().unwrap_or(name);
+            if let Some((_, c)) = self.known.iter().find(|(k, _)| *k == name || *k == last) { self.out.push(*c); return; }
+            if IGNORE.contains(&last) || name.starts_with("XcpError") { return; }
+            self.out.push(99);
+        }
+    }
+    impl<'ast, 'a> Visit<'ast> for V<'a> {
+        fn visit_expr_call(&mut self, c: &'ast syn::ExprCall) {
+            syn::visit::visit_expr_call(self, c);
+            let n = quote::ToTokens::to_token_stream(&c.func).to_string().replace(' ', "");
+            self.note(&n);
+        }
+        fn visit_expr_method_call(&mut self, m: &'ast syn::ExprMethodCall) {
+            syn::visit::visit_expr_method_call(self, m);
+            let n = m.method.to_string();
+            self.note(&n);
+        }
+        fn visit_expr_return(&mut self, r: &'ast syn::ExprReturn) {
+            syn::visit::visit_expr_return(self, r);
+            self.out.push(98);
+        }
+        fn visit_expr_closure(&mut self, _c: &'ast syn::ExprClosure) { self.out.push(97); }
+        fn visit_macro(&mut self, _m: &'ast syn::Macro) {}
+    }
+    let mut v = V { known, out: vec![] };
+    v.visit_block(block);
+    Ok(format!("(* {}:{}  fn {}: {} *)\nDefinition {} : list N := {}.\n", src.path, block.span().start().line, fname, what, gname, nlist(&v.out)))
+}
+
+
 fn main() {
     let root = std::env::args().nth(1).unwrap_or_else(|| "/repo".to_string());
     let root = Path::new(&root);
@@ -979,6 +1018,10 @@ fn main() {
             emit("queue_file_range.blocks", let_function(&src, "queue_file_range", "blocks", "x_qfr_blocks", &p3, "N", &[]), &mut out);
             emit("queue_file_range.bytes", let_function(&src, "queue_file_range", "bytes", "x_qfr_bytes", &p4, "N", &[]), &mut out);
             emit("queue_file_range.off", let_function(&src, "queue_file_range", "off", "x_qfr_off", &p4, "N", &[]), &mut out);
+            emit("queue_file_blocks", call_order(&src, "queue_file_blocks", "x_queue_file_blocks_steps",
+                &[("CopyHandle::new", 40), ("try_reflink", 4), ("Arc::new", 41), ("probably_sparse", 30), ("map_extents", 42), ("merge_extents", 43),
+                  ("queue_file_range", 44), ("queue_whole_file", 45)],
+                "the steps of parblock::queue_file_blocks (40 open both files, 4 clone attempt, 41 share the handle, 30 sparseness test, 42 extent map, 43 merge, 44 queue the block jobs of a range; 97 = closure)"), &mut out);
             emit("dispatch_worker.special", special_arm(&src, "dispatch_worker", "x_parblock_special"), &mut out);
             emit("dispatch_worker.queue_len", method_literal(&src, "dispatch_worker", "queue_len").map(|(v, l)|
                 format!("(* {}:{}  the pool's bounded queue *)\nDefinition x_pool_queue_len : N := {}.\n", src.path, l, v)), &mut out);
@@ -1009,6 +1052,13 @@ fn main() {
     match load(root, "libxcp/src/operations.rs") {
         Ok(src) => {
             emit("try_reflink", try_reflink(&src), &mut out);
+            emit("CopyHandle::new", call_order(&src, "new", "x_copy_new_steps",
+                &[("File::open", 20), ("metadata", 21), ("try_exists", 22), ("is_same_file", 23), ("needs_backup", 24), ("get_backup_path", 25),
+                  ("fs::rename", 1), ("File::create", 2), ("allocate_file", 3)],
+                "the steps of CopyHandle::new in evaluation order (20 open source, 21 fstat, 22 probe destination, 23 same-file check, 24/25 backup decision and name, 1 rename, 2 create+truncate, 3 size; 99 = any other call, 98 = return)"), &mut out);
+            emit("copy_file", call_order(&src, "copy_file", "x_copy_file_steps",
+                &[("try_reflink", 4), ("probably_sparse", 30), ("copy_sparse", 31), ("copy_bytes", 32)],
+                "the steps of CopyHandle::copy_file (4 clone attempt, 30 sparseness test, 31 sparse walk, 32 plain loop)"), &mut out);
             emit("copy_bytes", copy_bytes_loop(&src), &mut out);
             emit("finalise_copy", finalise_order(&src).map(|(v, l)| {
                 let items: Vec<String> = v.iter().map(|(c, n)| format!("({}, {})", c, n)).collect();
